@@ -73,6 +73,11 @@ mod imp {
         let f = LanguageIdentifier::deserialize(U32Deserializer::<VErr>::new(7)).is_ok();
         let g = LanguageIdentifier::deserialize(UnitDeserializer::<VErr>::new()).is_ok();
         if d || e || f || g { return Some(format!("INCONSISTENT a non-string input is accepted: bytes={} borrowed-bytes={} u32={} unit={}", d, e, f, g)); }
+        // bytes that are not UTF-8 (a binary format may deliver them): an error, not a crash
+        for raw in [&[0xffu8][..], &[0x80, b'e', b'n'], &[b'e', b'n', 0xc3], &[]] {
+            if LanguageIdentifier::deserialize(BytesDeserializer::<VErr>::new(raw)).is_ok() { return Some("INCONSISTENT non-UTF-8 bytes are accepted".into()); }
+            if LanguageIdentifier::deserialize(serde::de::value::SeqDeserializer::<_, VErr>::new(raw.iter().copied())).is_ok() { return Some("INCONSISTENT a sequence of bytes is accepted".into()); }
+        }
         None
     }
     pub fn serde_ser(v: &[u8]) -> String {
